@@ -22,6 +22,7 @@ import (
 	"strconv"
 	"strings"
 	"sync"
+	"time"
 
 	"github.com/deadsy/sdfx/render"
 	"github.com/deadsy/sdfx/sdf"
@@ -149,7 +150,7 @@ func c13Triangles(v c13Vec) []*sdf.Triangle3 {
 	r := rand.New(rand.NewSource(v.Seed*100003 + int64(v.I)*7 + 1))
 	n := r.Intn(6)
 	if r.Intn(12) == 0 {
-		n = 250 + r.Intn(20)
+		n = 250 + r.Intn(500)
 	}
 	mag := r.Intn(8)
 	far := 1e7 * float64(1+r.Intn(3)) * []float64{1, -1}[r.Intn(2)]
@@ -341,9 +342,21 @@ type scriptRender3 struct {
 }
 
 func (r *scriptRender3) Render(s sdf.SDF3, out sdf.Triangle3Writer) {
+	// the renderer owns the slice it passes to Write and fills it again for the next call (what a writer may keep
+	// of a Write is the triangles, not the caller's slice)
+	junk := &sdf.Triangle3{{X: 12345, Y: 1, Z: 2}, {X: 3, Y: 12345, Z: 4}, {X: 5, Y: 6, Z: 12345}}
+	var scratch []*sdf.Triangle3
 	i := 0
 	for _, b := range r.batches {
-		out.Write(r.ts[i : i+b])
+		if cap(scratch) < b {
+			scratch = make([]*sdf.Triangle3, b)
+		}
+		scratch = scratch[:b]
+		copy(scratch, r.ts[i:i+b])
+		out.Write(scratch)
+		for k := range scratch {
+			scratch[k] = junk
+		}
 		i += b
 	}
 	out.Close()
@@ -352,6 +365,12 @@ func (r *scriptRender3) Info(s sdf.SDF3) string { return "scripted" }
 
 func splitBatches(n int, r *rand.Rand) []int {
 	bs := []int{}
+	if n >= 300 && r.Intn(2) == 0 {
+		// one write at or above the size of the library's internal triangle buffer (256)
+		b := 256 + r.Intn(n-256+1)
+		bs = append(bs, b)
+		n -= b
+	}
 	for n > 0 {
 		b := 1 + r.Intn(n)
 		if r.Intn(3) == 0 {
@@ -414,6 +433,13 @@ func c13Load(path string, o *c13Obs) {
 			}
 		}()
 		mesh, err = render.LoadSTL(path)
+		if err == nil {
+			// the caller owns what it was given: scribble over it and load the unchanged file again
+			for _, t := range mesh {
+				*t = sdf.Triangle3{{X: 777, Y: 777, Z: 777}, {X: -777, Y: 777, Z: 777}, {X: 777, Y: -777, Z: 777}}
+			}
+			mesh, err = render.LoadSTL(path)
+		}
 	}()
 	if err != nil {
 		o.Lerr = 1
@@ -486,13 +512,34 @@ func c13One(id int, v c13Vec, dir string) []c13Obs {
 		return out
 	}
 	var res []c13Obs
+	var stamp time.Time
 	// batch writer
 	save := base
 	save.Kind = "save"
 	p1 := filepath.Join(dir, "save.stl")
 	os.Remove(p1)
+	if len(ts) >= 2 {
+		// an earlier, different file of the same size at the same path, loaded once; the file under test then
+		// replaces it and gets the same time stamp (a copy tool that preserves times, or two writes within one tick)
+		rev := make([]*sdf.Triangle3, len(ts))
+		for i := range ts {
+			rev[len(ts)-1-i] = ts[i]
+		}
+		if render.SaveSTL(p1, rev) == nil {
+			if fi, err := os.Stat(p1); err == nil {
+				func() {
+					defer func() { recover() }()
+					render.LoadSTL(p1)
+				}()
+				stamp = fi.ModTime()
+			}
+		}
+	}
 	if err := render.SaveSTL(p1, ts); err != nil {
 		save.Werr = 1
+	}
+	if !stamp.IsZero() {
+		os.Chtimes(p1, stamp, stamp)
 	}
 	finish(&save, p1)
 	save.Bn = normals(&save)
